@@ -469,3 +469,116 @@ Fixpoint merge (fuel : nat) (sch doc : jv) : jv :=
                    | None => (k, a, b, sv) end end) (sm :: sms))
   | _, _ => doc
   end end.
+
+(* ---------- lossy mode (C09): invalid UTF-8 and unpaired surrogates become U+FFFD exactly as
+   String::from_utf8_lossy would (one replacement per maximal invalid subpart) ---------- *)
+Definition fffd : list N := [239; 191; 189].
+Fixpoint utf8_lossy_f (fuel : nat) (l : list N) : list N :=
+  match fuel with O => [] | S f =>
+  match l with
+  | [] => []
+  | c :: r =>
+    if c <? 128 then c :: utf8_lossy_f f r
+    else if (194 <=? c) && (c <=? 223) then
+      match r with
+      | c1 :: r1 => if cont c1 then c :: c1 :: utf8_lossy_f f r1 else fffd ++ utf8_lossy_f f r
+      | [] => fffd
+      end
+    else if (224 <=? c) && (c <=? 239) then
+      match r with
+      | c1 :: r1 =>
+        if cont c1 && (if c =? 224 then 160 <=? c1 else true) && (if c =? 237 then c1 <=? 159 else true) then
+          match r1 with
+          | c2 :: r2 => if cont c2 then c :: c1 :: c2 :: utf8_lossy_f f r2 else fffd ++ utf8_lossy_f f r1
+          | [] => fffd
+          end
+        else fffd ++ utf8_lossy_f f r
+      | [] => fffd
+      end
+    else if (240 <=? c) && (c <=? 244) then
+      match r with
+      | c1 :: r1 =>
+        if cont c1 && (if c =? 240 then 144 <=? c1 else true) && (if c =? 244 then c1 <=? 143 else true) then
+          match r1 with
+          | c2 :: r2 =>
+            if cont c2 then
+              match r2 with
+              | c3 :: r3 => if cont c3 then c :: c1 :: c2 :: c3 :: utf8_lossy_f f r3 else fffd ++ utf8_lossy_f f r2
+              | [] => fffd
+              end
+            else fffd ++ utf8_lossy_f f r1
+          | [] => fffd
+          end
+        else fffd ++ utf8_lossy_f f r
+      | [] => fffd
+      end
+    else fffd ++ utf8_lossy_f f r
+  end end.
+Definition utf8_lossy (l : list N) : list N := utf8_lossy_f (S (length l)) l.
+
+(* string body decoding where an unpaired surrogate escape denotes U+FFFD *)
+Fixpoint str_body_lossy (fuel : nat) (l : list N) : option (list N * bool * list N) :=
+  match fuel with O => None | S f =>
+  match l with
+  | [] => None
+  | c :: r =>
+    if c =? 34 then Some ([], false, r)
+    else if c =? 92 then
+      match r with
+      | [] => None
+      | e :: r1 =>
+        if e =? 117 then
+          match r1 with
+          | h1 :: h2 :: h3 :: h4 :: r2 =>
+            match hex4 h1 h2 h3 h4 with
+            | None => None
+            | Some cp =>
+              let continue_with (out : list N) (rest : list N) :=
+                match str_body_lossy f rest with Some (d, _, rr) => Some (out ++ d, true, rr) | None => None end in
+              if (55296 <=? cp) && (cp <=? 56319) then
+                match r2 with
+                | 92 :: 117 :: g1 :: g2 :: g3 :: g4 :: r3 =>
+                  match hex4 g1 g2 g3 g4 with
+                  | Some lo =>
+                    if (56320 <=? lo) && (lo <=? 57343)
+                    then continue_with (utf8_encode (65536 + (cp - 55296) * 1024 + (lo - 56320))) r3
+                    else continue_with fffd r2
+                  | None => None
+                  end
+                | _ => continue_with fffd r2
+                end
+              else if (56320 <=? cp) && (cp <=? 57343) then continue_with fffd r2
+              else continue_with (utf8_encode cp) r2
+            end
+          | _ => None
+          end
+        else
+          match simple_escape e with
+          | Some o => match str_body_lossy f r1 with Some (d, _, rest) => Some (o :: d, true, rest) | None => None end
+          | None => None
+          end
+      end
+    else if c <? 32 then None
+    else match str_body_lossy f r with Some (d, h, rest) => Some (c :: d, h, rest) | None => None end
+  end end.
+
+(* a whole string literal (with its quotes): Some (decoded, has_escape) *)
+Definition decode_literal (lossy : bool) (lit : list N) : option (list N * bool) :=
+  match lit with
+  | 34 :: body =>
+    if lossy then
+      match str_body_lossy (S (length body)) body with
+      | Some (d, h, []) => Some (utf8_lossy d, h)
+      | _ => None end
+    else if utf8_valid lit then
+      match str_body true (S (length body)) body with
+      | Some (d, h, []) => Some (d, h)
+      | _ => None end
+    else None
+  | _ => None
+  end.
+Definition skip_literal (lit : list N) : bool :=
+  match lit with
+  | 34 :: body => utf8_valid lit && match str_body false (S (length body)) body with Some (_, _, []) => true | _ => false end
+  | _ => false
+  end.
